@@ -196,6 +196,13 @@ def check(repo, res, tier):
             bad.append("%s then %s -> %s" % (l1, l2, got))
     res.check(not bad, "R-KEEP", setter, "successive(25 format pairs)", "after two full assignments the second one is in force",
               "successive assignments leave stale values: %s" % "; ".join(bad[:3]), node=setter.node)
+    # ---- every sequence of three assignments over 5 full and 2 partial formats: the model must end up with
+    #      the last value given for each name (stale entries under a differently typed key must not win)
+    bad3, n3 = sequences_of_three(setter)
+    n_forms += n3
+    res.check(not bad3, "R-KEEP", setter, "successive-triples(%d sequences)" % n3,
+              "after any three assignments in mixed formats every parameter holds the last value given for its name",
+              "a sequence of assignments leaves a stale value in force (%d of %d sequences), e.g. %s" % (len(bad3), n3, "; ".join(bad3[:2])), node=setter.node)
     # ---- rejections
     rej = [("unknown-name(pairs)", [("a", vals[0]), ("zz", vals[1]), ("c", vals[2])]),
            ("unknown-name(dict)", {"a": vals[0], "zz": vals[1]}),
@@ -245,6 +252,47 @@ def check(repo, res, tier):
               "R-KV", setter, "dict(frozen distribution)", "a draw from a distribution is bound to that parameter's own slot and the distribution is remembered",
               "distribution-valued entry -> evaluation values %s, remembered=%s" % (got, me.attrs.get("_stochasticParam") is not None), node=setter.node)
     res.floor("parameter input forms executed abstractly", n_forms, 70)
+
+
+def sequences_of_three(setter):
+    """-> (list of failing sequence descriptions, number of sequences executed)"""
+    full = {"list": lambda v: list(v), "tuple": lambda v: tuple(v), "ndarray": lambda v: nd(list(v)),
+            "pairs": lambda v: [(NAMES[i], v[i]) for i in (1, 2, 0)], "dict": lambda v: {NAMES[i]: v[i] for i in (2, 1, 0)},
+            "symdict": lambda v: {Tok(NAMES[i], "sym"): v[i] for i in (0, 2, 1)}}
+    partial = {"partial(b)": lambda v: {"b": v[1]}, "partial(sym c,a)": lambda v: {Tok("c", "sym"): v[2], Tok("a", "sym"): v[0]}}
+    forms = dict(full)
+    forms.update(partial)
+    bad, n = [], 0
+    for l1 in full:                       # the first assignment must define every parameter
+        for l2 in forms:
+            for l3 in forms:
+                n += 1
+                me = model(NAMES)
+                ref = {}
+                ok = True
+                for step, lab in enumerate((l1, l2, l3)):
+                    v = [Tok("s%d_%d" % (step, i)) for i in range(3)]
+                    val = forms[lab](v)
+                    try:
+                        kind, _ = run_setter(setter, me, val, NAMES)
+                    except Undecided as e:
+                        return (["outside the modelled subset: %s" % e], n)
+                    if kind != "return":
+                        ok = False
+                        bad.append("%s, %s, %s: step %d raises" % (l1, l2, l3, step + 1))
+                        break
+                    if lab in full:
+                        ref = {NAMES[i]: v[i] for i in range(3)}
+                    elif lab == "partial(b)":
+                        ref["b"] = v[1]
+                    else:
+                        ref["c"], ref["a"] = v[2], v[0]
+                if ok:
+                    got = list(me.attrs.get("_paramValue") or [])
+                    want = [ref[nm] for nm in NAMES]
+                    if got != want:
+                        bad.append("%s, %s, %s -> %s (expected %s)" % (l1, l2, l3, got, want))
+    return bad, n
 
 
 def _check_helpers(repo, res, cls):
